@@ -80,8 +80,15 @@ read the match, static, re-connect, empty / missing / undecodable path). -/
 theorem mapper_probes_agree :
     Pyr.Gen.C01.mapperProbes.all (MProbe.check (mkLib Pyr.Gen.C01.probeLib)) = true := by decide +kernel
 
-/-- the tables are not empty -/
-theorem probe_sizes : 50 ≤ Pyr.Gen.C01.compileProbes.length ∧ 20 ≤ Pyr.Gen.C01.mapperProbes.length := by decide
+/-- **A route predicate is attached for every built-in keyword whose value is not `None`** — also for the falsy but
+meaningful values (`xhr=False`, `request_method=()`, `header=''`, `accept=()`, `is_authenticated=False`, …): the
+running `add_route` connected as many predicates as the model's `addRoute` does, for every probed (keyword, value). -/
+theorem route_predicates_attached_as_model : Pyr.Gen.C01.predicateAttached.all AProbe.check = true := by decide
+
+/-- the tables are not empty; in particular at least 25 probed values that are not `None` (falsy ones among them) -/
+theorem probe_sizes : 50 ≤ Pyr.Gen.C01.compileProbes.length ∧ 20 ≤ Pyr.Gen.C01.mapperProbes.length ∧
+    25 ≤ (Pyr.Gen.C01.predicateAttached.filter fun p => !p.unset && p.npreds == 1).length ∧
+    (Pyr.Gen.C01.predicateAttached.any fun p => p.kw == "xhr" && p.value == "False" && p.npreds == 1) = true := by decide
 
 /-! ## 1. the regex matcher -/
 
@@ -536,12 +543,64 @@ theorem add_route_args (pfx : Option Text) (a : RouteArgs) :
     (∀ p, a.pattern = none → a.path = some p → addRoute pfx a = addRoute pfx { a with pattern := some p }) ∧
     (∀ p, a.pattern = some p → a.inheritSlash = true → p ≠ [] → addRoute pfx a = .error .inheritSlash) ∧
     (∀ p, a.pattern = some p → a.inheritSlash = false →
-      addRoute pfx a = .ok (routePattern pfx p false, a.preds, a.static)) := by
+      addRoute pfx a = .ok (routePattern pfx p false, builtinPreds a.builtins ++ a.preds, a.static)) := by
   refine ⟨?_, ?_, ?_, ?_⟩
   · intro h1 h2; simp [addRoute, h1, h2]
   · intro p h1 h2; simp [addRoute, h1, h2]
   · intro p h1 h2 h3; simp [addRoute, h1, h2, h3]
   · intro p h1 h2; simp [addRoute, h1, h2]
+
+/-- **`predicate_attached_iff_given`.**  The route `add_route` connects carries a predicate for a built-in keyword iff a
+value was given for it (`none` = `None`): every given value contributes its predicate, an unset keyword contributes
+nothing, and nothing else is added to the custom predicates.  (A falsy value is a value: `xhr=False` restricts the
+route to non-XHR requests.) -/
+theorem predicate_attached_iff_given (pfx : Option Text) (a : RouteArgs) (pat : Text) (ps : List Pred) (st : Bool)
+    (h : addRoute pfx a = .ok (pat, ps, st)) :
+    (∀ k p, (k, some p) ∈ a.builtins → p ∈ ps) ∧
+    (∀ p, p ∈ ps → p ∈ a.preds ∨ ∃ k, (k, some p) ∈ a.builtins) ∧
+    ps.length = (a.builtins.filter fun x => x.2.isSome).length + a.preds.length := by
+  have hps : ps = builtinPreds a.builtins ++ a.preds := by
+    unfold addRoute at h
+    split at h
+    · cases h
+    · split at h
+      · cases h
+      · injection h with h; injection h with _ h; injection h with h _; exact h.symm
+  subst hps
+  refine ⟨?_, ?_, ?_⟩
+  · intro k p hm
+    apply List.mem_append_left
+    simp only [builtinPreds, List.mem_filterMap]
+    exact ⟨(k, some p), hm, rfl⟩
+  · intro p hm
+    rcases List.mem_append.mp hm with hm | hm
+    · simp only [builtinPreds, List.mem_filterMap] at hm
+      obtain ⟨⟨k, q⟩, hq, he⟩ := hm
+      simp only at he
+      subst he
+      exact Or.inr ⟨k, hq⟩
+    · exact Or.inl hm
+  · simp only [List.length_append, builtinPreds]
+    congr 1
+    induction a.builtins with
+    | nil => rfl
+    | cons x xs ih =>
+      obtain ⟨k, q⟩ := x
+      cases q <;> simp [ih]
+
+/-- the scenario of seed C01-4, in the model: `plain` declared with `xhr=False`, then `ajax` without predicates, same
+pattern; an XHR request skips `plain` and selects `ajax`, a plain request selects `plain`. -/
+example :
+    let mk (isXhr : Bool) : List Decl :=
+      [(⟨"plain".toList, some "/data/{id}".toList, none, false, false, [], [(.xhr, some (.const (xhrHolds false isXhr)))]⟩ : RouteArgs),
+       ⟨"ajax".toList, some "/data/{id}".toList, none, false, false, [], [(.xhr, none)]⟩].filterMap fun a =>
+        match addRoute none a with
+        | .ok (pat, ps, st) => some ⟨a.name, compileRoute Ucd.ascii [] pat, ps, st⟩
+        | .error _ => none
+    mapperCall Ucd.ascii (runDecls Mapper.empty (mk true)).routelist (some [47, 100, 97, 116, 97, 47, 55])
+        = .hit 1 [("id".toList, .str "7".toList)] ∧
+      mapperCall Ucd.ascii (runDecls Mapper.empty (mk false)).routelist (some [47, 100, 97, 116, 97, 47, 55])
+        = .hit 0 [("id".toList, .str "7".toList)] := by decide
 
 /-- `request_method='GET'` also lets `HEAD` through; other methods are exactly those listed. -/
 theorem get_implies_head (val : List Text) (h : val.contains "GET".toList = true) :
